@@ -361,7 +361,10 @@ namespace occa {
       occa::device(modeMemory->getModeDevice())
       .malloc(byte_size(), *this, properties())
     );
-    mem.setDtype(dtype());
+    if (mem.isInitialized()) {
+      // Cloning an empty memory gives an empty (uninitialized) memory, like malloc(0)
+      mem.setDtype(dtype());
+    }
 
     return mem;
   }
